@@ -72,6 +72,8 @@ def check_response(ctx, hist, kind, handles, result, detail, mds_handles, single
         if expect_all and set(got_d) != set(want):
             bad.append(f'descr: selection differs from the MDIB at version {v}: only in response {sorted(set(got_d) - set(want))[:3]}, '
                        f'missing {sorted(set(want) - set(got_d))[:3]}')
+        if not expect_all and got_d:
+            bad.append(f'descr: none of the requested handles {handles} exists at version {v}, but the response contains {len(got_d)} descriptors')
         for h in set(got_d) & set(want):
             if not tolerant_equal(got_d[h], want[h]):
                 bad.append(f'descr[{h}] {first_difference(want[h], got_d[h])}')
@@ -158,6 +160,9 @@ def _injections(cat, req_handles, n):
     }
     if ctx_descr:
         inj['ctx_new'] = {'op': 'context', 'sub': 'new_assoc', 'descr': ctx_descr[0], 'new_handle': f'injctx_{n}', 'iface': 'classic'}
+    if req_handles and any(h in metrics for h in req_handles):
+        # the requested descriptor disappears while the request is in progress (it is re-created after the run)
+        inj['descr_delete_requested'] = {'op': 'descr_delete', 'handle': req_metric[0], 'iface': 'classic'}
     return inj
 
 
@@ -216,6 +221,11 @@ def w_explore(ctx: core.Ctx, arg):
                                 {'request': [kind, handles], 'point': list(point), 'injected': list(combo), 'ex': repr(ex)[:300]})
                     continue
                 inst.clear_hook()
+                if 'descr_delete_requested' in combo:
+                    h = inj['descr_delete_requested']['handle']
+                    if mdib.descriptions.handle.get_one(h, allow_none=True) is None:
+                        mdibops.apply_op(mdib, {'op': 'descr_create', 'parent': cat['channel'][0], 'handle': h, 'with_state': True, 'recreate': True,
+                                                'seed': n, 'iface': 'classic'}, None)
                 ctx.count('explore.runs')
                 ctx.case(('explore', mdib_file, kind, bool(handles), pi, combo))
                 check_response(ctx, hist, kind, handles, res,
